@@ -1,5 +1,7 @@
 import FpVerif.Sexp
 import FpVerif.Model.Hamt
+import FpVerif.Model.HamtHeap
+import Std.Data.HashMap
 /-!
 Line-protocol oracle for `immutable.Map` / `immutable.Set` / builders / `fp.Map` / `fp.Set` (C03, C04).
 
@@ -17,9 +19,24 @@ current version; it runs the definitions of `FpVerif/Model/Hamt.lean`.
   (check I)                     summary of version I (persistence re-check)
   (mb new) (mb add k v) (mb build)     immutable.MapBuilder;  (sb new) (sb add k) (sb build)  SetBuilder
   (hist op...)                  run the ops in order, answers joined by " ; "
-Answer of an operation that creates version I: `vI size=N sh=<shape digest> it=<count>:<iteration digest>`.
+Answer of an operation that creates version I:
+`vI size=N sh=<shape digest> it=<count>:<iteration digest> al=<cells>/<fresh>:<alias digest>`.
+
+Next to the value-level model (`Model/Hamt.lean`) the oracle EXECUTES the heap-level model
+(`Model/HamtHeap.lean`: addresses, cells, in-place writes on the `mutable` path) on the same operations:
+* after every operation that creates a version (and on every builder step, and on `(check I)` for the old
+  version I in the CURRENT heap) the abstraction of the heap-level object is compared with the value-level
+  object; a difference (or a heap-level panic) is reported as ` model-divergence(...)` appended to the
+  answer, which makes the line differ from the implementation's;
+* `al=`: the sharing the heap model predicts.  Every cell (the `*hamt` header, node structs, backing arrays
+  of `entries` / `nodes` slices) gets a canonical number when it is first reached from a version (pre-order,
+  header, node, its backing array, children in slot order; the walk does not descend below a cell that
+  already has a number).  `cells` = cells visited, `fresh` = cells numbered now, digest = fold of the
+  numbers.  The harness computes the same from the REAL pointers (`immutable.VerifAlias`), so a node
+  that is shared where the model allocates (or vice versa) changes the token.  `al=-` for values that are
+  not trie-backed.
 -/
-open FpVerif FpVerif.Sexp FpVerif.Hamt
+open FpVerif FpVerif.Sexp FpVerif.Hamt FpVerif.HamtHeap
 
 -- hashers ---------------------------------------------------------------------------------------
 
@@ -85,12 +102,30 @@ inductive Obj where
   | map (m : FMap Int Int)
   | set (s : FSet Int)
 
+/-- heap-level counterpart of `Obj` -/
+inductive HObj where
+  | map (m : HFMap Int Int)
+  | set (s : HFSet Int)
+
+/-- the heap-level world: one heap per instantiation (`hamt[int,int]` and `hamt[int,bool]` cannot share
+    cells), the heap-level versions (parallel to `St.vers`), builders, canonical cell numbers -/
+structure HW where
+  mh : Heap Int Int := #[]
+  sh : Heap Int Bool := #[]
+  vers : Array HObj := #[]
+  mb : Option HMapBuilder := none
+  sb : Option HSetBuilder := none
+  ids : Std.HashMap Nat Nat := {}     -- 2*addr (map heap) / 2*addr+1 (set heap) -> number
+  /-- first divergence between the two models in this history (sticky) -/
+  div : Option String := none
+
 structure St where
   hid : Nat := 0
   vers : Array Obj := #[]
   cur : Nat := 0
   mb : Option (MapBuilder Int Int) := none
   sb : Option (SetBuilder Int) := none
+  hw : HW := {}
 
 def St.h (st : St) : Hasher Int := hasherOf st.hid
 
@@ -121,6 +156,78 @@ def sizeObj : Obj → Nat
   | .map m => m.size
   | .set s => s.size
 
+
+-- heap-level model: abstraction check and sharing token ------------------------------------------------
+
+def absObj (w : HW) : HObj → Option Obj
+  | .map m => (absFMap w.mh m).map .map
+  | .set s => (absFSet w.sh s).map .set
+
+/-- does the heap-level object represent the value-level one? -/
+def agrees (w : HW) (ho : HObj) (o : Obj) : Option String :=
+  match absObj w ho with
+  | none => some "abstraction-undefined"
+  | some a =>
+    if shapeDigest a == shapeDigest o && sizeObj a == sizeObj o then none
+    else some s!"abs={hex (shapeDigest a)}/{sizeObj a}"
+
+structure Walk where
+  ids : Std.HashMap Nat Nat
+  n : Nat := 0
+  k : Nat := 0
+  d : UInt64 := 41
+
+/-- number a cell; `true` if it was known already -/
+def Walk.visit (w : Walk) (key : Nat) : Walk × Bool :=
+  match w.ids[key]? with
+  | some id => ({ w with n := w.n + 1, d := mix w.d (dN id) }, true)
+  | none =>
+    let id := w.ids.size
+    ({ ids := w.ids.insert key id, n := w.n + 1, k := w.k + 1, d := mix w.d (dN id) }, false)
+
+partial def walkNode {V : Type} (H : Heap Int V) (tag : Nat) (w : Walk) (p : Addr) : Walk :=
+  let (w, known) := w.visit (2 * p + tag)
+  if known then w else
+  match H[p]? with
+  | some (.array sl) => (w.visit (2 * sl.arr + tag)).1
+  | some (.collision _ sl) => (w.visit (2 * sl.arr + tag)).1
+  | some (.bitmap _ sl) =>
+    let w := (w.visit (2 * sl.arr + tag)).1
+    match viewPtrs H sl with
+    | some ps => ps.foldl (walkNode H tag) w
+    | none => w
+  | some (.hashArray _ slots) => slots.foldl (fun w o => match o with | some c => walkNode H tag w c | none => w) w
+  | _ => w
+
+def walkHamt {V : Type} (H : Heap Int V) (tag : Nat) (w : Walk) (m : Addr) : Walk :=
+  let (w, known) := w.visit (2 * m + tag)
+  if known then w else
+  match H[m]? with
+  | some (.hamt _ (some r)) => walkNode H tag w r
+  | _ => w
+
+def aliasTok (w : HW) (o : HObj) : HW × String :=
+  let fin (wk : Walk) : HW × String := ({ w with ids := wk.ids }, s!"al={wk.n}/{wk.k}:{hex wk.d}")
+  match o with
+  | .map ⟨some (.hamt m)⟩ => fin (walkHamt w.mh 0 { ids := w.ids } m)
+  | .set ⟨_, some (.hamt m)⟩ => fin (walkHamt w.sh 1 { ids := w.ids } m)
+  | _ => (w, "al=-")
+
+def HW.runMap {α : Type} (w : HW) (x : HM Int Int α) : Except String (α × HW) :=
+  match x w.mh with
+  | .ok (r, H) => .ok (r, { w with mh := H })
+  | .error e => .error e
+
+def HW.runSet {α : Type} (w : HW) (x : HM Int Bool α) : Except String (α × HW) :=
+  match x w.sh with
+  | .ok (r, H) => .ok (r, { w with sh := H })
+  | .error e => .error e
+
+def divTag (w : HW) : String :=
+  match w.div with
+  | some d => s!" model-divergence({d})"
+  | none => ""
+
 def run (r : GoE String) : String :=
   match r with
   | .ok s => s
@@ -131,9 +238,26 @@ def summary (o : Obj) : GoE String := do
   let d := it.foldl (fun a e => mix (mix a (dI e.1)) (dI e.2)) 31
   pure s!"size={sizeObj o} sh={hex (shapeDigest o)} it={it.length}:{hex d}"
 
-def push (st : St) (o : Obj) : St × String :=
+/-- a new version: value-level object `o`, heap-level object from `hr` -/
+def push (st : St) (o : Obj) (hr : HW → Except String (HObj × HW)) : St × String :=
   let id := st.vers.size
-  ({ st with vers := st.vers.push o, cur := id }, run (do pure s!"v{id} {← summary o}"))
+  -- heap-level model
+  let (w, ho) : HW × HObj :=
+    match st.hw.div with
+    | some _ => (st.hw, .map ⟨none⟩)
+    | none =>
+      match hr st.hw with
+      | .ok (ho, w) =>
+        match agrees w ho o with
+        | none => (w, ho)
+        | some d => ({ w with div := some s!"v{id}:{d}" }, ho)
+      | .error e => ({ st.hw with div := some s!"v{id}:heap-panic:{e}" }, .map ⟨none⟩)
+  let (w, al) := match w.div with
+    | none => aliasTok w ho
+    | some _ => (w, "al=?")
+  let w := { w with vers := w.vers.push ho }
+  ({ st with vers := st.vers.push o, cur := id, hw := w },
+    run (do pure s!"v{id} {← summary o} {al}{divTag w}"))
 
 def remapOf : Sexp → Option (Option Int → Option Int)
   | .list [.atom "inc", d] => do
@@ -150,10 +274,49 @@ def asPair? : Sexp → Option (Int × Int)
   | _ => none
 
 /-- an operation producing a new version -/
-def newVersion (st : St) (r : GoE Obj) : St × String :=
+def newVersion (st : St) (r : GoE Obj) (hr : HW → Except String (HObj × HW)) : St × String :=
   match r with
-  | .ok o => push st o
+  | .ok o => push st o hr
   | .error p => (st, s!"panic({p})")
+
+def curHObj (st : St) : HObj := st.hw.vers.getD st.cur (.map ⟨none⟩)
+
+/-- heap-level map operation on the current version -/
+def hmapOp (st : St) (f : HFMap Int Int → HM Int Int (HFMap Int Int)) : HW → Except String (HObj × HW) := fun w =>
+  match curHObj st with
+  | .map hm => do let (r, w) ← w.runMap (f hm); pure (.map r, w)
+  | _ => throw "heap-level version is not a map"
+
+def hsetOp (st : St) (f : HFSet Int → HM Int Bool (HFSet Int)) : HW → Except String (HObj × HW) := fun w =>
+  match curHObj st with
+  | .set hs => do let (r, w) ← w.runSet (f hs); pure (.set r, w)
+  | _ => throw "heap-level version is not a set"
+
+def hsetOp2 (st : St) (i : Sexp) (f : HFSet Int → HFSet Int → HM Int Bool (HFSet Int)) :
+    HW → Except String (HObj × HW) := fun w =>
+  match curHObj st, i.asNat? >>= (w.vers[·]?) with
+  | .set hs, some (.set ho) => do let (r, w) ← w.runSet (f hs ho); pure (.set r, w)
+  | _, _ => throw "heap-level versions are not sets"
+
+/-- builder step: run the heap-level builder and compare its trie with the value-level builder's -/
+def builderStep (st : St) (hr : HW → Except String HW) (chk : HW → Option String) : St × String :=
+  match st.hw.div with
+  | some _ => (st, "ok" ++ divTag st.hw)
+  | none =>
+    match hr st.hw with
+    | .ok w =>
+      let w := match chk w with
+        | none => w
+        | some d => { w with div := some s!"builder:{d}" }
+      ({ st with hw := w }, "ok" ++ divTag w)
+    | .error e =>
+      let w := { st.hw with div := some s!"builder:heap-panic:{e}" }
+      ({ st with hw := w }, "ok" ++ divTag w)
+
+def hamtAgrees {V : Type} (dv : V → UInt64) (H : Heap Int V) (m : Addr) (v : Hamt Int V) : Option String :=
+  match absHamt H m with
+  | none => some "abstraction-undefined"
+  | some a => if hamtDigest dv a.1 == hamtDigest dv v then none else some s!"abs={hex (hamtDigest dv a.1)}"
 
 def curObj (st : St) : Option Obj := st.vers[st.cur]?
 
@@ -173,12 +336,14 @@ partial def step (st : St) (e : Sexp) : St × String :=
       match kind with
       | "map" => match args.mapM asPair? with
         | some ps => newVersion st (do pure (.map (← FMap.ofList h ps)))
+            (fun w => do let (r, w) ← w.runMap (HFMap.ofList h ps); pure (.map r, w))
         | none => (st, "bad-op")
       | "set" => match args.mapM Sexp.asInt? with
         | some ks => newVersion st (do pure (.set (← FSet.ofList h ks)))
+            (fun w => do let (r, w) ← w.runSet (HFSet.ofList h ks); pure (.set r, w))
         | none => (st, "bad-op")
-      | "zmap" => newVersion st (pure (.map ⟨none⟩))
-      | "zset" => newVersion st (pure (.set ⟨.nil, none⟩))
+      | "zmap" => newVersion st (pure (.map ⟨none⟩)) (fun w => pure (.map ⟨none⟩, w))
+      | "zset" => newVersion st (pure (.set ⟨.nil, none⟩)) (fun w => pure (.set ⟨.nil, none⟩, w))
       | _ => (st, "bad-op")
   | .list [.atom "use", i] =>
     match i.asNat? with
@@ -186,14 +351,32 @@ partial def step (st : St) (e : Sexp) : St × String :=
     | none => (st, "bad-op")
   | .list [.atom "check", i] =>
     match i.asNat? >>= (st.vers[·]?) with
-    | some o => (st, run (summary o))
+    | some o =>
+      -- persistence at the heap level: the OLD pointer, read in the CURRENT heap
+      let w := st.hw
+      let w := match w.div, i.asNat? >>= (w.vers[·]?) with
+        | none, some ho =>
+          (match agrees w ho o with
+           | none => w
+           | some d => { w with div := some s!"check:{d}" })
+        | _, _ => w
+      ({ st with hw := w }, run (summary o) ++ divTag w)
     | none => (st, "bad-op")
-  | .list [.atom "mb", .atom "new"] => ({ st with mb := some MapBuilder.new }, "ok")
+  | .list [.atom "mb", .atom "new"] =>
+    builderStep { st with mb := some MapBuilder.new }
+      (fun w => do let (b, w) ← w.runMap HMapBuilder.new; pure { w with mb := some b }) (fun _ => none)
   | .list [.atom "mb", .atom "add", k, v] =>
     match st.mb, k.asInt?, v.asInt? with
     | some b, some k, some v =>
       match b.add h k v with
-      | .ok b' => ({ st with mb := some b' }, "ok")
+      | .ok b' =>
+        builderStep { st with mb := some b' }
+          (fun w => match w.mb with
+            | some hb => do let (hb', w) ← w.runMap (hb.add h k v); pure { w with mb := some hb' }
+            | none => throw "no heap-level builder")
+          (fun w => match w.mb, b'.m with
+            | some ⟨some p⟩, some vm => hamtAgrees dI w.mh p vm
+            | _, _ => some "builder-state")
       | .error p => (st, s!"panic({p})")
     | _, _, _ => (st, "bad-op")
   | .list [.atom "mb", .atom "build"] =>
@@ -201,19 +384,36 @@ partial def step (st : St) (e : Sexp) : St × String :=
     | some b =>
       match b.build with
       | .ok (m, b') => push { st with mb := some b' } (.map ⟨some (.hamt m)⟩)
+          (fun w => match w.mb with
+            | some hb => do
+              let ((p, hb'), w) ← w.runMap hb.build
+              pure (.map ⟨some (.hamt p)⟩, { w with mb := some hb' })
+            | none => throw "no heap-level builder")
       | .error p => (st, s!"panic({p})")
     | none => (st, "bad-op")
-  | .list [.atom "sb", .atom "new"] => ({ st with sb := some SetBuilder.new }, "ok")
+  | .list [.atom "sb", .atom "new"] =>
+    builderStep { st with sb := some SetBuilder.new }
+      (fun w => do let (b, w) ← w.runSet HSetBuilder.new; pure { w with sb := some b }) (fun _ => none)
   | .list [.atom "sb", .atom "add", k] =>
     match st.sb, k.asInt? with
     | some b, some k =>
       match b.add h k with
-      | .ok b' => ({ st with sb := some b' }, "ok")
+      | .ok b' =>
+        builderStep { st with sb := some b' }
+          (fun w => match w.sb with
+            | some hb => do let (hb', w) ← w.runSet (hb.add h k true); pure { w with sb := some hb' }
+            | none => throw "no heap-level builder")
+          (fun w => match w.sb with
+            | some hb => hamtAgrees dB w.sh hb.m b'.m
+            | none => some "builder-state")
       | .error p => (st, s!"panic({p})")
     | _, _ => (st, "bad-op")
   | .list [.atom "sb", .atom "build"] =>
     match st.sb with
     | some b => push { st with sb := some b.build.2 } (.set ⟨.hamt, some (.hamt b.build.1)⟩)
+        (fun w => match w.sb with
+          | some hb => pure (.set ⟨.hamt, some (.hamt hb.build.1)⟩, { w with sb := some hb.build.2 })
+          | none => throw "no heap-level builder")
     | none => (st, "bad-op")
   | .list (.atom op :: args) =>
     match curObj st with
@@ -221,16 +421,16 @@ partial def step (st : St) (e : Sexp) : St × String :=
     | some (.map m) =>
       match op, args with
       | "set", [k, v] => match k.asInt?, v.asInt? with
-        | some k, some v => newVersion st (do pure (.map (← m.updated h k v)))
+        | some k, some v => newVersion st (do pure (.map (← m.updated h k v))) (hmapOp st (·.updated h k v))
         | _, _ => (st, "bad-op")
       | "del", ks => match ks.mapM Sexp.asInt? with
-        | some ks => newVersion st (do pure (.map (← m.removed h ks)))
+        | some ks => newVersion st (do pure (.map (← m.removed h ks))) (hmapOp st (·.removed h ks))
         | none => (st, "bad-op")
       | "updwith", [k, f] => match k.asInt?, remapOf f with
-        | some k, some f => newVersion st (do pure (.map (← m.updatedWith h k f)))
+        | some k, some f => newVersion st (do pure (.map (← m.updatedWith h k f))) (hmapOp st (·.updatedWith h k f))
         | _, _ => (st, "bad-op")
       | "concat", ps => match ps.mapM asPair? with
-        | some ps => newVersion st (do pure (.map (← m.concat h ps)))
+        | some ps => newVersion st (do pure (.map (← m.concat h ps))) (hmapOp st (·.concat h ps))
         | none => (st, "bad-op")
       | "get", ks => match ks.mapM Sexp.asInt? with
         | some ks => (st, run (do pure (" ".intercalate ((← ks.mapM (m.get h ·)).map showOpt))))
@@ -268,19 +468,19 @@ partial def step (st : St) (e : Sexp) : St × String :=
         | _ => none
       match op, args with
       | "incl", [k] => match k.asInt? with
-        | some k => newVersion st (do pure (.set (← s.incl h k)))
+        | some k => newVersion st (do pure (.set (← s.incl h k))) (hsetOp st (·.incl h k))
         | none => (st, "bad-op")
       | "excl", [k] => match k.asInt? with
-        | some k => newVersion st (do pure (.set (← s.excl h k)))
+        | some k => newVersion st (do pure (.set (← s.excl h k))) (hsetOp st (·.excl h k))
         | none => (st, "bad-op")
       | "sconcat", ks => match ks.mapM Sexp.asInt? with
-        | some ks => newVersion st (do pure (.set (← s.concat h ks)))
+        | some ks => newVersion st (do pure (.set (← s.concat h ks))) (hsetOp st (·.concat h ks))
         | none => (st, "bad-op")
       | "diff", [i] => match other i with
-        | some o => newVersion st (do pure (.set (← s.diff h o)))
+        | some o => newVersion st (do pure (.set (← s.diff h o))) (hsetOp2 st i (fun a b => a.diff h b))
         | none => (st, "bad-op")
       | "intersect", [i] => match other i with
-        | some o => newVersion st (do pure (.set (← s.intersect h o)))
+        | some o => newVersion st (do pure (.set (← s.intersect h o))) (hsetOp2 st i (fun a b => a.intersect h b))
         | none => (st, "bad-op")
       | "subsetof", [i] => match other i with
         | some o => (st, run (do pure (toString (← s.subsetOf h o))))
